@@ -84,3 +84,23 @@ def fn(I, name, crate):
 
 def msgs_of(resp):
     return resp.get("messages").items
+
+
+def call_entry(I, ctx, ob, contract, entry, fname, args, env, info, msg, msg_ty, crate, result_ty="Response", querier=None):
+    """run an entry point, roll back on failure, and record what the native replay needs"""
+    pre = snapshot_storage(ctx.storage)
+    outcome, r = run_entry(I, ctx, fn(I, fname, crate), args, pre)
+    ob.outcome = outcome
+    ob.info["replay"] = dict(contract=contract, entry=entry, crate=crate, env=env, info=info, msg=msg, msg_ty=msg_ty,
+                             pre_storage=pre, post_storage=snapshot_storage(ctx.storage), outcome=outcome,
+                             result=r if outcome == "Ok" else None, result_ty=result_ty, querier=querier)
+    return outcome, r, pre
+
+
+def stub_result(name):
+    """nondeterministic pure Result<(), E> stub (declared in the spec's ASSUMPTIONS)"""
+    def h(I, ctx, callee, args, crate):
+        ok = ctx.fresh_bool(f"stub[{name}].ok")
+        if ctx.branch(ok, f"stub {name}"): return Ok(())
+        return Err(EnumV("ContractError", "Stubbed_" + name, ()))
+    return h
